@@ -239,5 +239,15 @@ def replay(run, payload):
             print('trash-put', av, 'exit', r['steps'][0]['exit'], 'stderr', esc(r['steps'][0]['stderr'][-300:]))
             judge_vanish(run, scn, r, names, names.index(gone), 'replay')
         return
+    if scn.get('judge_meta') and scn.get('steps'):
+        meta = scn['judge_meta']
+        res = sandbox.execute(scn)
+        if res.get('steps'):
+            solo = solo_runs([scn], [meta])
+            alone = [solo.get((0, ai)) for ai in range(len(meta['args']))]
+            o = res['steps'][0]
+            print('trash-put', [esc(a) for a in scn['steps'][0]['argv']], 'exit', o['exit'], 'exc', o['exc'], 'stderr', esc(o['stderr'][-400:]))
+            judge(run, scn, meta, res, alone, section='replay')
+        return
     import p_c01
     p_c01.replay(run, payload)
